@@ -305,6 +305,40 @@ fn gen_evict_script(rng: &mut Rng) -> Script {
     Script { qname: format!("{}.{}", c, parent(rng.below(npar))), recs }
 }
 
+/// Names that share a first label and a non-adjacent suffix: for labels a,
+/// b, c the triples {c., a.b.c., a.c.} and {b.c., a.b.c., a.c.} (plus a
+/// fourth relative), in every order, through the owner (reversed-name) or
+/// the RDATA (forward-name) path.  A child of a partly matched name must not
+/// be taken for a child of the matched suffix.
+fn gen_triple_script(rng: &mut Rng) -> Script {
+    let labs = [["www", "example", "org"], ["a", "b", "c"], ["ns", "sub", "example"], ["x", "www", "x"]];
+    let l = labs[rng.below(labs.len() as u64) as usize];
+    let (a, b, c) = (l[0], l[1], l[2]);
+    let mut names = vec![
+        if rng.chance(1, 2) { format!("{}.", c) } else { format!("{}.{}.", b, c) },
+        format!("{}.{}.{}.", a, b, c),
+        format!("{}.{}.", a, c),
+    ];
+    if rng.chance(1, 2) {
+        names.push(format!("{}.{}.{}.", b, a, c));
+    }
+    // a random order
+    for i in (1..names.len()).rev() {
+        let j = rng.below(i as u64 + 1) as usize;
+        names.swap(i, j);
+    }
+    let qname = if rng.chance(1, 2) { names.remove(0) } else { "q.".to_string() };
+    let mut recs = vec![];
+    for n in names {
+        match rng.below(3) {
+            0 => recs.push(Rec { sec: 1, owner: n, rd: Rd::A }),
+            1 => recs.push(Rec { sec: 1, owner: "q.".into(), rd: Rd::Ns(n) }),
+            _ => recs.push(Rec { sec: 1, owner: n.clone(), rd: Rd::Cname(n) }),
+        }
+    }
+    Script { qname, recs }
+}
+
 /// One step of a fill script: the section, whether the push succeeded and
 /// the header counts afterwards.
 fn step_json(sec: u8, ok: bool, c: [u16; 4]) -> Value {
@@ -719,7 +753,9 @@ fn main() {
         let big = i % 6 == 3;
         let long = i % 6 == 1;
         let evict = i % 6 == 2;
-        let s = if long {
+        let s = if i % 6 == 0 && i % 12 == 0 {
+            gen_triple_script(&mut rng)
+        } else if long {
             gen_long_script(&mut rng)
         } else if evict {
             gen_evict_script(&mut rng)
